@@ -513,7 +513,7 @@ class GrowthSignMonitor:
             bad_b = below & ~(g < 0)
             if np.any(bad_a):
                 i = int(np.argmax(bad_a))
-                self.F.add('C12.growth_sign', f'step {n} phase {p}: class boundary R={R[i]!r} is above the critical radius {Rc!r} but its growth rate is {g[i]!r}', side='above', ar_fn=bool(self.cfg['phase_params'][self.cfg['phases'][p]].get('ar') == 'fn'))
+                self.F.add('C12.growth_sign', f'step {n} phase {p}: class boundary R={R[i]!r} is above the critical radius {Rc!r} but its growth rate is {g[i]!r}', side='above', ar_fn=bool(self.cfg['phase_params'][self.cfg['phases'][p]].get('ar') in ('fn', 'fnb')))
             if np.any(bad_b):
                 i = int(np.argmax(bad_b))
-                self.F.add('C12.growth_sign', f'step {n} phase {p}: class boundary R={R[i]!r} is below the critical radius {Rc!r} but its growth rate is {g[i]!r}', side='below', ar_fn=bool(self.cfg['phase_params'][self.cfg['phases'][p]].get('ar') == 'fn'))
+                self.F.add('C12.growth_sign', f'step {n} phase {p}: class boundary R={R[i]!r} is below the critical radius {Rc!r} but its growth rate is {g[i]!r}', side='below', ar_fn=bool(self.cfg['phase_params'][self.cfg['phases'][p]].get('ar') in ('fn', 'fnb')))
